@@ -111,7 +111,7 @@ def main():
     # (family, op, kindop, space kind, wavenumbers)
     kreal, kcplx = 1.7, 1.1 + 0.35j
     cfg = [("laplace", "single_layer", "DP0", [None]), ("laplace", "double_layer", "P1", [None]),
-           ("helmholtz", "single_layer", "P1", [kreal, kcplx]), ("helmholtz", "double_layer", "DP1", [kcplx]),
+           ("helmholtz", "single_layer", "P1", [kreal, kcplx, 0.8j]), ("helmholtz", "double_layer", "DP1", [kcplx, 1.3j]),
            ("modified_helmholtz", "single_layer", "P1", [0.9]), ("modified_helmholtz", "double_layer", "DP0", [1.4]),
            ("maxwell", "electric_field", "RWG", [kreal, kcplx]), ("maxwell", "magnetic_field", "RWG", [kcplx]),
            ("ff_helmholtz", "single_layer", "P1", [kreal, kcplx]), ("ff_helmholtz", "double_layer", "P1", [kreal, kcplx]),
@@ -139,7 +139,7 @@ def main():
                         continue
                     rng = ctx.rng(cid)
                     opts = (S.draw_opts(rng, mesh, topo, *KA[kind], variant=vi)[0] or {}) if vi else ({"include_boundary_dofs": True} if (not mesh.is_closed_manifold() and kind in ("P1", "RWG")) else {})
-                    r = 4 if vi % 2 == 0 else int(rng.integers(2, 8))
+                    r = 4 if vi % 2 == 0 else int(rng.choice([2, 3, 5, 6, 7]))
                     if vi % 2 == 1 and "swapped_normals" not in opts:
                         opts["swapped_normals"] = [int(sorted(opts.get("segments") or set(mesh.D.tolist()))[-1])]
                     par = O.params(api, r, 4)
